@@ -91,6 +91,7 @@ type machine struct {
 	cur         *gor
 	gseq        int
 	now         int64
+	nowSym      *term // symbolic wall clock in Unix ms (verifSetNowMs); nil = concrete virtual clock
 	timers      []*timer
 	preemptLeft int
 	end         *pathEnd
